@@ -1,7 +1,7 @@
 (* C16 - the theorem tying model and checker, the Prop-level reading of the checker,
    and the witnesses of the findings. *)
 From Coq Require Import String.
-From RV Require Import Results.Model Results.Proofs Results.ProofsXml Results.ProofsTsv.
+From RV Require Import Results.Model Results.Proofs Results.ProofsXml Results.ProofsTsv Results.ProofsTsvDoc.
 Local Open Scope N_scope.
 
 Lemma json_ok : forall c, wf c = true -> c_fmt c = FJson -> spec_ok c (model_obs c) = true.
@@ -24,13 +24,13 @@ Proof.
   destruct (c_ask c); [discriminate|]. apply csv_ok.
 Qed.
 
-Theorem spec_ok_model_partial : forall c,
-  wf c = true -> kf c = 0 -> c_fmt c <> FTsv -> spec_ok c (model_obs c) = true.
+Theorem spec_ok_model : forall c,
+  wf c = true -> kf c = 0 -> spec_ok c (model_obs c) = true.
 Proof.
-  intros c Hwf Hkf Hf. destruct (c_fmt c) eqn:E.
+  intros c Hwf Hkf. destruct (c_fmt c) eqn:E.
   - apply json_ok; auto.
   - apply xml_ok; auto.
-  - congruence.
+  - apply tsv_ok; auto.
   - apply csv_main; auto.
 Qed.
 
@@ -105,22 +105,47 @@ Definition iri_a : term := IRI (s2l "http://e/a"%string).
 Definition mk (f : fmt) (rows : list row) (st : style) : case :=
   {| c_fmt := f; c_ask := None; c_vars := [vx]; c_rows := rows; c_style := st; c_bytes := true |}.
 
+(* accepted since the repairs of F11a, F11d (empty IRI) and F11g *)
 Definition w_F11a := mk FTsv [[(vx, Some iri_a)]; []; [(vx, Some iri_a)]] st0.
+Definition w_F11a2 : case :=
+  {| c_fmt := FTsv; c_ask := None; c_vars := [vx; [121]]; c_rows := [[(vx, Some iri_a)]; []; [([121], Some iri_a)]];
+     c_style := st0; c_bytes := true |}.
+Definition w_F11d_iri := mk FXml [[(vx, Some (IRI []))]] st0.
+Definition w_F11g := mk FXml [[(vx, Some (Lit [48] (Some xsd_integer) None))]] st0.
+
+Lemma repaired :
+  (wf w_F11a = true /\ kf w_F11a = 0 /\ model_obs w_F11a = OSel [vx] [[(vx, iri_a)]; []; [(vx, iri_a)]])
+  /\ (wf w_F11a2 = true /\ kf w_F11a2 = 0
+      /\ model_obs w_F11a2 = OSel [vx; [121]] [[(vx, iri_a)]; []; [([121], iri_a)]])
+  /\ (wf w_F11d_iri = true /\ kf w_F11d_iri = 0 /\ model_obs w_F11d_iri = OSel [vx] [[(vx, IRI [])]])
+  /\ (wf w_F11g = true /\ kf w_F11g = 0
+      /\ model_obs w_F11g = OSel [vx] [[(vx, Lit [48] (Some xsd_integer) None)]]).
+Proof. vm_compute. repeat split. Qed.
+
+(* the row loop as it was before the repair drops the row with nothing bound *)
+Lemma tsv_rows_prefix_refuted :
+  tsv_rows_prefix [vx] (split_lines true [] (flat_map (fun r => render_row st0 [vx] r ++ [10]) (c_rows w_F11a)))
+  = Some [[(vx, iri_a)]; [(vx, iri_a)]]
+  /\ tsv_rows [vx] (split_lines true [] (flat_map (fun r => render_row st0 [vx] r ++ [10]) (c_rows w_F11a)))
+    = Some [[(vx, iri_a)]; []; [(vx, iri_a)]].
+Proof. vm_compute. split; reflexivity. Qed.
+
 Definition w_F11b := mk FXml [[(vx, Some (Lit [97; 1; 98] None None))]] st0.
 Definition w_F11c := mk FXml [[(vx, Some (Lit [97; 13; 98] None None))]] st0.
-Definition w_F11d := mk FXml [[(vx, Some (IRI []))]] st0.
+Definition w_F11d := mk FXml [[(vx, Some (Lit [118] (Some []) None))]] st0.
 Definition w_F11e := mk FTsv [[(vx, Some (Lit [97; 8232; 98] None None))]] st0.
 Definition w_F11f := mk FTsv [[(vx, Some (Lit [105; 116; 39; 115] None None))]]
                         {| st_sq := false; st_esc_all := false; st_bare := false; st_cross := true |}.
-Definition w_F11g := mk FXml [[(vx, Some (Lit [48] (Some xsd_integer) None))]] st0.
+Definition w_F11h : case :=
+  {| c_fmt := FTsv; c_ask := None; c_vars := [vx; [121; 5760]];
+     c_rows := [[(vx, Some iri_a); ([121; 5760], Some iri_a)]]; c_style := st0; c_bytes := true |}.
 
 Lemma witnesses :
-  (wf w_F11a = true /\ kf w_F11a = 1 /\ spec_ok w_F11a (model_obs w_F11a) = false
-   /\ model_obs w_F11a = OSel [vx] [[(vx, iri_a)]; [(vx, iri_a)]])
-  /\ (wf w_F11b = true /\ kf w_F11b = 2 /\ model_obs w_F11b = OErr)
+  (wf w_F11b = true /\ kf w_F11b = 2 /\ model_obs w_F11b = OErr)
   /\ (wf w_F11c = true /\ kf w_F11c = 3 /\ model_obs w_F11c = OSel [vx] [[(vx, Lit [97; 10; 98] None None)]])
-  /\ (wf w_F11d = true /\ kf w_F11d = 4 /\ model_obs w_F11d = OErr)
+  /\ (wf w_F11d = true /\ kf w_F11d = 4 /\ model_obs w_F11d = OSel [vx] [[(vx, Lit [118] None None)]])
   /\ (wf w_F11e = true /\ kf w_F11e = 5 /\ model_obs w_F11e = OErr)
   /\ (wf w_F11f = true /\ kf w_F11f = 6 /\ model_obs w_F11f = OErr)
-  /\ (wf w_F11g = true /\ kf w_F11g = 7 /\ model_obs w_F11g = OSel [vx] [[(vx, Lit [] (Some xsd_integer) None)]]).
+  /\ (wf w_F11h = true /\ kf w_F11h = 1
+      /\ model_obs w_F11h = OSel [vx; [121]] [[(vx, iri_a); ([121], iri_a)]]).
 Proof. vm_compute. repeat split. Qed.
